@@ -241,11 +241,21 @@ class Session:
         ti = op.get("t", 0)
         line = dict(op)
         line["hist"] = self.hist
+        if op.get("cols2d"):
+            self.oracle_only_hist = True       # columns the model has no cells for: direct oracles only for this history
+        if getattr(self, "oracle_only_hist", False):
+            line["oracle_only"] = True
         exc, val = "ok", None
         extra = {}
         try:
             if kind == "new":
                 data = {n: col_array(cs) for n, cs in op["cols"]}
+                for n2, rows2, how in op.get("cols2d", []):
+                    if how == "object":
+                        # one tuple per row: numpy stores an (nrows, k) object array
+                        data[n2] = np.array([tuple(r) for r in rows2], dtype=object) if rows2 else np.zeros((0, 2), dtype=object)
+                    else:
+                        data[n2] = np.array(rows2, dtype=float).reshape(len(rows2), -1) if rows2 else np.zeros((0, 2))
                 if op.get("fixed_width"):
                     # string columns kept as numpy fixed-width strings (cast_strings=False): the same table for the model
                     data = {n: (np.array(cs) if cs and all(isinstance(c, str) for c in cs) else data[n]) for n, cs in op["cols"]}
@@ -273,6 +283,9 @@ class Session:
                         t[op["name"], slice(via[1], via[2])] = arr[slice(via[1], via[2])]
                     elif via and via[0] == "list":     # ... or through a list of positions
                         t[op["name"], list(via[1])] = arr[list(via[1])]
+                    elif via and via[0] == "recreate":  # the column deleted, then created again with the new content
+                        del t[op["name"]]
+                        t[op["name"]] = arr
                     elif op.get("attr"):
                         setattr(t, op["name"], arr)
                     else:
@@ -706,6 +719,9 @@ def gen_c07(rng, sess):
                     newcol[i] = rng.choice(names + ["zz"])
                 via = ["list", pos]
             sess.step({"op": "setcol", "name": "name", "vals": newcol, "via": via})
+        elif r < 0.355:
+            # the index column deleted and created again ("column deletion", "new columns" applied to the index column)
+            sess.step({"op": "setcol", "name": "name", "vals": [rng.choice(names) for _ in range(n)], "via": ["recreate"]})
         elif r < 0.38:
             sess.step({"op": "setcol", "name": "x%d" % stepi, "vals": list(range(n))})
         elif r < 0.41:
@@ -738,6 +754,9 @@ def gen_c14(rng, sess):
     n = len(op["cols"][0][1])
     op["cols"].append(["x", [{"f": repr(0.5 * i)} for i in range(n)]])
     op["scalars"] = [["sc", 3.5], ["title", "hello"]]
+    if rng.random() < 0.12:
+        # a column that is not one-dimensional: one pair per row (object or numeric), as positions / multipole lists are
+        op["cols2d"] = [["pos", [[i, i + 1] for i in range(n)], rng.choice(["object", "float"])]]
     if rng.random() < 0.5:
         op["scalars"] += [["qx", {"np": "float64", "v": 0.31}], ["nturns", {"np": "int64", "v": 7}],
                           ["aper", {"np": "array", "v": list(range(len(op["cols"][0][1]) + 2))}]]
